@@ -472,3 +472,35 @@ Lemma rdn_ok s i n : i + n <= len s -> rdn s i n = Ok (sub s i (i + n)).
 Proof.
   intros H. unfold rdn, sub. rewrite rdn_f_ok by lia. do 3 f_equal. lia.
 Qed.
+
+(* reading inside a C string: always defined, NUL exactly at n *)
+Lemma cstring_rd s n k : cstring s n -> k <= n -> exists b, rd s k = Some b /\ (b = 0 <-> k = n).
+Proof.
+  intros [H0 Hlt] Hk. destruct (N.eq_dec k n) as [->|Hne].
+  - exists 0. tauto.
+  - destruct (Hlt k) as [b [Hb Nz]]; [lia|]. exists b. tauto.
+Qed.
+Lemma cstring_len s n : cstring s n -> n < len s.
+Proof. intros [H0 _]. now apply rd_some_lt in H0. Qed.
+
+(* a matched literal prefix lies inside the string *)
+Lemma prefix_l_true lit : forall l, prefix_l lit l = Ok true -> exists rest, l = lit ++ rest.
+Proof.
+  induction lit as [|x lt IH]; intros l H; simpl in H.
+  - now exists l.
+  - destruct l as [|y t]; [discriminate|]. destruct (N.eqb_spec x y) as [->|]; [|discriminate].
+    destruct (IH t H) as [rest ->]. now exists rest.
+Qed.
+Lemma prefix_in_cstring lit s n i : no_nul lit -> cstring s n -> i <= n ->
+  prefix_l lit (skipn (N.to_nat i) s) = Ok true -> i + len lit <= n.
+Proof.
+  intros Hl Hs Hi H. destruct (prefix_l_true _ _ H) as [rest E].
+  destruct (N.le_gt_cases (i + len lit) n) as [|Hgt]; [assumption|exfalso].
+  (* then the NUL at n would be one of the literal's bytes *)
+  destruct Hs as [H0 _].
+  assert (R : rd (skipn (N.to_nat i) s) (n - i) = Some 0).
+  { rewrite rd_skipn. now replace (i + (n - i)) with n by lia. }
+  rewrite E, rd_app_l in R by lia.
+  unfold no_nul in Hl. rewrite Forall_forall in Hl. apply (Hl 0); [|reflexivity].
+  unfold rd in R. eapply nth_error_In; eauto.
+Qed.
